@@ -1551,9 +1551,9 @@ PAIR_CASES = {
     "choice": ["ok", "not-in-list", "int"],
     "multichoice": ["ok", "ok-one", "one-not-in-list", "int"],
     "file": ["ok", "int"],
-    "object": ["ok", "unknown", "ill-formed", "foreign", "int"],
-    "group": ["ok", "unknown", "ill-formed", "foreign", "int"],
-    "data": ["ok", "other-parent", "unknown", "ill-formed", "foreign", "int"],
+    "object": ["ok", "unknown", "ill-formed", "foreign", "int", "int-list"],
+    "group": ["ok", "unknown", "ill-formed", "foreign", "int", "int-list"],
+    "data": ["ok", "other-parent", "unknown", "ill-formed", "foreign", "int", "int-list"],
     "datagroup": ["ok", "other-type", "other-parent", "unknown", "int"],
     "datavalue": ["ok-value", "ok-property", "other-parent", "unknown", "ill-formed"],
     "multiobject": ["ok", "ok-one", "one-unknown", "int"],
@@ -1571,6 +1571,9 @@ def pair_strategy():
             "pick": st.integers(0, 20), "num": st.one_of(float_values(), int_values()),
             "text": plain_text(), "geoh5": st.sampled_from(["open_rw", "open_r", "path"]),
             "allow_known": st.sampled_from([False] * 9 + [True]),
+            # what the process did before: nothing, or a ui.json with a multi-selection form was read (verdicts must
+            # not depend on it)
+            "prelude": st.sampled_from([None, None, "multiselect"]),
         })
 
     return st.one_of(*[case_for(kind) for kind in PAIR_KINDS])
@@ -1588,6 +1591,8 @@ def pair_grid():
                                  "opt": None, "ref": 0, "pick": 1, "num": {"t": "float", "v": "2.5"},
                                  "text": "abc", "geoh5": "path" if api == "construct" else "open_r",
                                  "allow_known": False})
+                    if vcase == "int-list":
+                        grid.append({**grid[-1], "prelude": "multiselect"})
     return grid
 
 
@@ -1631,6 +1636,15 @@ def run_pair(program, res, pid="C15"):
                 return str(uid)
             return uid
 
+        if program.get("prelude") == "multiselect":
+            first = {k: (v if k == "geoh5" else deepcopy(v)) for k, v in uj.items()}
+            first["m"] = templates.object_parameter(value=[str(obj0["uid"])], multi_select=True)
+            first["md"] = {**templates.data_parameter(parent="o", value=[str(obj0["data"][0]["uid"])]), "multiSelect": True}
+            try:
+                InputFile(ui_json=first)
+                res.label("pair:after-a-multiselect-file")
+            except Exception as exc:
+                res.label(f"pair:prelude-refused:{type(exc).__name__}")
         unknown = _uuid.UUID(int=(ref + 1) * 7919 + 5, version=4)
         foreign_entity = other.get_entity(cat2["objs"][0]["uid"])[0]
         number = dec(program.get("num", {"t": "float", "v": "1.5"}))
@@ -1669,7 +1683,7 @@ def run_pair(program, res, pid="C15"):
             form = maker(value=str(good[ref % len(good)]))
             value = {"ok": lambda: ident(good[pick % len(good)]), "unknown": lambda: ident(unknown, "str" if present == "str" else "uuid"),
                      "ill-formed": lambda: "not-a-" + str(good[0])[6:], "foreign": lambda: foreign_entity,
-                     "int": lambda: 5}[vcase]()
+                     "int": lambda: 5, "int-list": lambda: [1, 2]}[vcase]()
         elif kind == "multiobject":
             good = [o["uid"] for o in cat["objs"]]
             form = templates.object_parameter(value=[str(good[0])], multi_select=True)
@@ -1683,7 +1697,7 @@ def run_pair(program, res, pid="C15"):
             value = {"ok": lambda: ident(mine[pick % len(mine)]), "other-parent": lambda: ident(theirs[pick % len(theirs)]),
                      "unknown": lambda: ident(unknown, "str" if present == "str" else "uuid"),
                      "ill-formed": lambda: "zz" + str(mine[0])[2:], "foreign": lambda: foreign_entity,
-                     "int": lambda: 5}[vcase]()
+                     "int": lambda: 5, "int-list": lambda: [1, 2]}[vcase]()
         elif kind == "datagroup":
             declared = obj0["pgs"][ref % 2]
             another = obj0["pgs"][(ref + 1) % 2]
